@@ -137,8 +137,19 @@ def build(flavour, jobs=16, quiet=False):
             if s == "prop_list.cpp":
                 extra = " -fno-lifetime-dse" if fl["cxx"] == "g++" else ""
             cmds.append("%s%s -c %s/%s -o %s" % (common, extra, HARNESS, s, o))
+        # on a busy machine fewer compilers at once (each needs 1-1.5 GB)
+        try:
+            load = os.getloadavg()[0]
+        except OSError:
+            load = 0
+        jobs = max(4, min(jobs, int(20 - load)))
         with ThreadPoolExecutor(max_workers=jobs) as ex:
             rcs = list(ex.map(lambda c: _run(c, log), cmds))
+        if any(rcs):
+            # a compiler killed for lack of memory is not a verdict on the tree: retry the
+            # failed translation units one at a time
+            retry = [c for c, rc in zip(cmds, rcs) if rc]
+            rcs = [_run(c, log) for c in retry]
         if any(rcs):
             sys.stderr.write("harness build failed (%s); see %s\n" % (flavour, log))
             try:
